@@ -170,3 +170,22 @@ pub fn from_utf8_stub(v: &[u8]) -> Result<&str, core::str::Utf8Error> {
         Err(unsafe { core::mem::MaybeUninit::<core::str::Utf8Error>::zeroed().assume_init() })
     }
 }
+
+/// Bytes requested from the allocator since the last reset (C03 allocation
+/// sub-claim).  Under Kani `std::alloc::alloc` is stubbed by `count_alloc_stub`
+/// (every Vec/Box allocation of the deserializers goes through it); in a native
+/// replay the replay binary installs a counting global allocator that feeds the
+/// same counter.
+pub static mut ALLOC_BYTES: usize = 0;
+pub static mut ALLOC_CALLS: usize = 0;
+pub unsafe fn count_alloc_stub(l: std::alloc::Layout) -> *mut u8 {
+    ALLOC_BYTES += l.size();
+    ALLOC_CALLS += 1;
+    std::alloc::alloc_zeroed(l)
+}
+pub fn alloc_reset() {
+    unsafe { ALLOC_BYTES = 0; ALLOC_CALLS = 0; }
+}
+pub fn alloc_bytes() -> usize {
+    unsafe { ALLOC_BYTES }
+}
